@@ -34,7 +34,7 @@ def cases(seed, tier):
     for i in range(n):
         yield {"family": fams[i % len(fams)], "sub": int(rng.integers(0, 2**31))}
     for i in range(1 if tier == "quick" else 6):
-        yield {"family": "big", "sub": int(rng.integers(0, 2**31)), "first": i == 0, "cap": 2 ** 21 + 1 if tier == "quick" else None}
+        yield {"family": "big", "sub": int(rng.integers(0, 2**31)), "first": i == 0, "cap": 2 ** 21 + 1 if tier == "quick" else 5 * 10 ** 6 + 3}
 
 
 # ---------------------------------------------------------------------------------------------------------------
